@@ -30,8 +30,8 @@ for d in sorted(glob.glob('/tmp/seeds_in/C??[a-z]')):
     if m.get('summary') and m['summary'] not in prev.get(pid, []):
         prev.setdefault(pid, []).append(m['summary'])
 
-T = open('/tmp/prompt4_C12.txt').read()
-head_end = T.index('PROPERTY C12:')
+T = open(os.path.join(os.path.dirname(os.path.abspath(__file__)), 'seed_prompt_template_C18.txt')).read()
+head_end = T.index('PROPERTY C18:')
 task_start = T.index('YOUR TASK:')
 head = T[:head_end]
 tail = T[task_start:]
@@ -52,7 +52,7 @@ for p in props:
         for k, s_ in enumerate(prev[pid], 1):
             note += '  previous change %d: %s\n' % (k, s_[:420])
         note += '\n'
-    text = (head + body + note + tail).replace('/tmp/w4_C12', w).replace('demo_C12', 'demo_' + pid) \
-        .replace('"C12"', '"%s"' % pid)
+    text = (head + body + note + tail).replace('/tmp/w4_C18', w).replace('demo_C18', 'demo_' + pid) \
+        .replace('"C18"', '"%s"' % pid)
     open('/tmp/prompt%s_%s.txt' % (rnd, pid), 'w').write(text)
     print(pid, len(prev.get(pid, [])), 'previous')
